@@ -6,12 +6,15 @@ payloads and any application calls in between - the callbacks of an engine trace
 namespace Iora.Deliver
 open Iora.Lifecycle
 
-/-- the shape of an engine-originated op: (is it the close?, id); application calls have none -/
-def opShape : Op → Option (Bool × Sid)
+/-- the shape of an engine-originated op: (is it the close?, id); application calls have none.  The engine's close callback is ONE
+event and the handler is two ops: the engine's event is the moment the I/O thread ENTERS the handler, i.e. the half the source
+variant `markFirst` runs first; the other half maps to nothing -/
+def opShape (markFirst : Bool) : Op → Option (Bool × Sid)
   | .engAccept s => some (false, s)
   | .engConnect s => some (false, s)
   | .engData s _ => some (false, s)
-  | .engClose s => some (true, s)
+  | .closeMark s => if markFirst then some (true, s) else none
+  | .closeCbs s => if markFirst then none else some (true, s)
   | _ => none
 
 /-- the shape of an engine callback in a trace of `Model/EngineLifecycle.lean` (`ret` is connect() returning, not a callback) -/
@@ -26,8 +29,8 @@ def shapesOk : List Sid → List (Bool × Sid) → Prop
   | _, [] => True
   | cl, (c, s) :: r => (c = false → s ∉ cl) ∧ shapesOk (if c then s :: cl else cl) r
 
-theorem contract_of_shapes (ops : List Op) : ∀ cl, shapesOk cl (ops.filterMap opShape) →
-    ∀ pre o post, ops = pre ++ o :: post → ∀ s, engSid o = some s → s ∉ cl ∧ Op.engClose s ∉ pre := by
+theorem contract_of_shapes (ops : List Op) : ∀ cl, shapesOk cl (ops.filterMap (opShape true)) →
+    ∀ pre o post, ops = pre ++ o :: post → ∀ s, engSid o = some s → s ∉ cl ∧ Op.closeMark s ∉ pre := by
   induction ops with
   | nil => intro cl _ pre o post h; cases pre <;> cases h
   | cons op r ih =>
@@ -54,13 +57,17 @@ theorem contract_of_shapes (ops : List Op) : ∀ cl, shapesOk cl (ops.filterMap 
         simp only [List.filterMap_cons, opShape, shapesOk] at hk
         have h3 := ih _ hk.2 pre' o post h2 s hs
         exact ⟨by simpa using h3.1, by simpa using h3.2⟩
-      | engClose x =>
-        simp only [List.filterMap_cons, opShape, shapesOk] at hk
+      | closeMark x =>
+        simp only [List.filterMap_cons, opShape, if_true, shapesOk] at hk
         have h3 := ih _ hk.2 pre' o post h2 s hs
-        simp only [if_true, List.mem_cons, not_or] at h3
+        simp only [List.mem_cons, not_or] at h3
         refine ⟨h3.1.2, ?_⟩
-        simp only [List.mem_cons, Op.engClose.injEq, not_or]
+        simp only [List.mem_cons, Op.closeMark.injEq, not_or]
         exact ⟨fun e => h3.1.1 e, h3.2⟩
+      | closeCbs x =>
+        simp only [List.filterMap_cons, opShape] at hk
+        have h3 := ih _ hk pre' o post h2 s hs
+        exact ⟨h3.1, by simpa using h3.2⟩
       | setMode x m =>
         simp only [List.filterMap_cons, opShape] at hk
         have h3 := ih _ hk pre' o post h2 s hs
@@ -105,11 +112,18 @@ theorem shapes_of_allFrom (tr : List Lifecycle.Out) : ∀ (pre : List Lifecycle.
       · exact Or.inl (hcl s e)
 
 /-- every Transport history whose engine-originated ops are, in order, the callbacks of a trace with "nothing after the close"
-honours the engine contract - whatever the payloads and whatever application calls are interleaved -/
+honours the engine contract - whatever the payloads and whatever application calls are interleaved (also between the two halves
+of a handler run).  Mark-first order: the engine's close event is the `closeMark` op. -/
 theorem contract_of_engine_trace (tr : List Lifecycle.Out) (h : AllFrom okClosed [] tr) (ops : List Op)
-    (hproj : ops.filterMap opShape = tr.filterMap outShape) : EngineContract ops := by
-  have hs : shapesOk [] (ops.filterMap opShape) := by
+    (hord : MarkBeforeCbs ops) (hproj : ops.filterMap (opShape true) = tr.filterMap outShape) : EngineContract ops := by
+  have hs : shapesOk [] (ops.filterMap (opShape true)) := by
     rw [hproj]; exact shapes_of_allFrom tr [] [] (fun s hs => by cases hs) h
-  exact fun pre o post hsplit s hso => (contract_of_shapes ops [] hs pre o post hsplit s hso).2
+  intro pre o post hsplit s hso
+  have hm := (contract_of_shapes ops [] hs pre o post hsplit s hso).2
+  refine ⟨hm, fun hc => hm ?_⟩
+  -- the callbacks of s have started before `o`: then (mark-first order) so has its mark
+  obtain ⟨p1, p2, hp⟩ := List.append_of_mem hc
+  have := hord p1 (Op.closeCbs s) (p2 ++ o :: post) (by rw [hsplit, hp]; simp) s rfl
+  rw [hp]; exact List.mem_append_left _ this
 
 end Iora.Deliver
